@@ -16,6 +16,10 @@ def validate_encoded(string):
       "(it does not match the regular expression ([0-9A-F][0-9A-F])+)")
 
 def validate_decoded(byte_array):
+  if isinstance(byte_array, (gfapy.ByteArray, list, bytes, bytearray)) and \
+      len(byte_array) == 0:
+    raise gfapy.ValueError(
+      "An empty byte array cannot be represented as a H field")
   if isinstance(byte_array, gfapy.ByteArray):
     return byte_array.validate()
   elif isinstance(byte_array, (list, bytes, bytearray)):
